@@ -182,6 +182,8 @@ async def play(lab: L.Lab, case: dict, port: int, bind_port: int | None) -> dict
                 notes.append((i, 'no-helper'))
             else:
                 helper.send((args[0] + '\n').encode())
+        elif op == 'failpoint':
+            arm_failpoint(lab, int(args[0]), args[1] if len(args) > 1 else 'RuntimeError')
         elif op == 'reload':
             if args:
                 with open(lab.config_path, 'w') as f:
@@ -259,6 +261,54 @@ async def play(lab: L.Lab, case: dict, port: int, bind_port: int | None) -> dict
         'iterations': lab.clock.iterations,
         'log_evaluated': _log_evaluated(),
     }
+
+
+class InjectedFault(RuntimeError):
+    pass
+
+
+class InjectedKeyError(KeyError):
+    pass
+
+
+def arm_failpoint(lab, k: int, exc: str = 'RuntimeError') -> None:
+    """source-free failpoint: during the NEXT Configuration._reload() raise at the k-th statement executed in a file under
+    exabgp/configuration/ (k = 0: count only). One shot. The recovery code of Configuration.reload() runs outside
+    _reload() and is never hit."""
+    import sys
+
+    from exabgp.configuration.configuration import Configuration
+
+    mon = sys.monitoring
+    tool = 4
+    orig = Configuration._reload
+    state = {'n': 0, 'fired': None}
+    klass = InjectedKeyError if exc == 'KeyError' else InjectedFault
+
+    def line_cb(code, line):
+        if '/exabgp/configuration/' not in code.co_filename:
+            return mon.DISABLE
+        state['n'] += 1
+        if state['n'] == k:
+            state['fired'] = f'{code.co_filename.split("/exabgp/")[-1]}:{line}:{code.co_name}'
+            raise klass('injected failpoint')
+        return None
+
+    def _reload(cfg):
+        Configuration._reload = orig  # one shot
+        mon.use_tool_id(tool, 'verif-failpoint')
+        mon.register_callback(tool, mon.events.LINE, line_cb)
+        mon.set_events(tool, mon.events.LINE)
+        try:
+            return orig(cfg)
+        finally:
+            mon.set_events(tool, 0)
+            mon.register_callback(tool, mon.events.LINE, None)
+            mon.free_tool_id(tool)
+            mon.restart_events()
+            lab.event('failpoint', lines=state['n'], fired=state['fired'], k=k)
+
+    Configuration._reload = _reload
 
 
 def _log_evaluated() -> int:
